@@ -66,6 +66,7 @@ def header_combos(full):
 
 DETAIL = {"@type": T + "Header", "name": "detail-name", "value": ["d1", "d2"]}
 DETAIL2 = {"@type": T + "Error", "code": "CODE_ABORTED", "message": "second detail"}
+DETAIL_EMPTY = {"@type": T + "Header"}  # a message with no field set: its encoding is zero bytes long
 
 
 def errors(full):
@@ -81,7 +82,7 @@ def errors(full):
                 e["message"] = m
             out.append(("%s-%s-d0" % (c[5:].lower(), mn), e))
     for c in codes[:2]:
-        for nd, ds in (("d1", [DETAIL]), ("d2", [DETAIL, DETAIL2])):
+        for nd, ds in (("d1", [DETAIL]), ("d2", [DETAIL, DETAIL2]), ("d0e", [DETAIL_EMPTY]), ("d2e", [DETAIL, DETAIL_EMPTY])):
             out.append(("%s-mascii-%s" % (c[5:].lower(), nd), {"code": c, "message": "with details", "details": ds}))
     return out
 
@@ -131,7 +132,7 @@ def gen_size_suites(full):
     def blob(n, salt):
         unit = bytes((i * 7 + salt) % 251 for i in range(251))
         return b64((unit * (n // 251 + 1))[:n])
-    sizes = SIZES if full else [x for x in SIZES if x in (0, 1, 1024, 1025, 4096, 65536, 65537, 131072, 150000, 196608, 199000, 203000)]
+    sizes = SIZES if full else [x for x in SIZES if x in (0, 1025, 65537, 150000, 199000, 203000)]
     get_attrs = {"relevantProtocols": ["PROTOCOL_CONNECT"], "reliesOnConnectGet": True, "relevantCompressions": ["COMPRESSION_IDENTITY"]}
     SUITE_ATTRS["size-get"] = dict(get_attrs)
     # the response payload travels inside the request's response definition, and JSON inflates bytes by 4/3: the
@@ -143,9 +144,13 @@ def gen_size_suites(full):
         base_key = key
         for n in sizes:
             key = base_key + ("-big" if n > 131073 else "")
-            for which in ("req", "resp"):
-                rq, rs = (n, 3) if which == "req" else (3, n)
-                msgs = [{"@type": T + mtype, "responseDefinition": {"responseData": blob(rs, 1)}, "requestData": blob(rq, 2)}]
+            for which in ("req", "resp", "reqerr"):
+                rq, rs = (3, n) if which == "resp" else (n, 3)
+                rdef = {"responseData": blob(rs, 1)}
+                if which == "reqerr":
+                    # an error response: the request is echoed in an error detail, so the error itself is large
+                    rdef = {"error": {"code": "CODE_FAILED_PRECONDITION", "message": "large request echoed in the detail"}}
+                msgs = [{"@type": T + mtype, "responseDefinition": rdef, "requestData": blob(rq, 2)}]
                 req = {"testName": "unary/%s%d" % (which, n), "streamType": "STREAM_TYPE_UNARY", "requestMessages": msgs}
                 req.update(extra)
                 yield key, {"request": req}
